@@ -427,3 +427,147 @@ func ruleTopoIndex(c *an.Ctx, rule string) {
 		c.Pass(rule, "no-incrementing-back-edge-after-the-shift@(*Pipeline).topoSort", ts.Pos(), "no back edge that increments an index is reachable from a shifting copy (or the sort no longer shifts in place)")
 	}
 }
+
+// T8: merging the sources of a mapped call keeps what is known about the length.  The compiler
+// rejects "inconsistent split collections" by comparing the statically known lengths / key sets
+// of every source a call is mapped over; the knowledge is carried by the set that survives
+// MergeMapCallSources (MapCallSet.Master).  Necessary condition: wherever the merge hands back a
+// set (a *MapCallSet obtained by type assertion from an operand, or a freshly built one) and
+// neither operand is of still-unknown mode, KnownLength() is consulted between the point where
+// that set was obtained and the return - directly or in a helper.  A survivor chosen without
+// looking (by size, by position) can be the one without a known length, and every later
+// comparison is skipped.
+func ruleT8(c *an.Ctx) {
+	p := c.P
+	fn := c.NeedFunc(pkgSyntax, "MergeMapCallSources")
+	set := p.Named(pkgSyntax, "MapCallSet")
+	unknown := p.Const(pkgSyntax, "ModeUnknownMapCall")
+	if fn == nil || set == nil || unknown == nil {
+		c.Undecided("T8", "anchor(MergeMapCallSources/MapCallSet/ModeUnknownMapCall)", token.NoPos, "not found")
+		return
+	}
+	isSetPtr := func(t types.Type) bool {
+		pt, ok := t.(*types.Pointer)
+		return ok && types.Identical(pt.Elem(), set)
+	}
+	isKL := func(in ssa.Instruction) bool {
+		cl := an.AsCallAny(in)
+		if cl == nil {
+			return false
+		}
+		cc := cl.Common()
+		if cc.IsInvoke() {
+			return cc.Method.Name() == "KnownLength"
+		}
+		g := cc.StaticCallee()
+		if g == nil {
+			return false
+		}
+		if g.Name() == "KnownLength" && g.Signature.Recv() != nil {
+			return true
+		}
+		// a helper of the package that consults it
+		if g.Pkg == fn.Pkg && g != fn {
+			return an.MayDo(g, func(x ssa.Instruction) bool {
+				if c2 := an.AsCallAny(x); c2 != nil {
+					if c2.Common().IsInvoke() {
+						return c2.Common().Method.Name() == "KnownLength"
+					}
+					if h := c2.Common().StaticCallee(); h != nil {
+						return h.Name() == "KnownLength" && h.Signature.Recv() != nil
+					}
+				}
+				return false
+			}, 2)
+		}
+		return false
+	}
+	unknownMode := func(r an.Rel) bool {
+		if r.Op != token.EQL {
+			return false
+		}
+		chk := func(x, y ssa.Value) bool {
+			cl, ok := an.Strip(x).(*ssa.Call)
+			if !ok {
+				return false
+			}
+			cc := cl.Common()
+			name := ""
+			if cc.IsInvoke() {
+				name = cc.Method.Name()
+			} else if g := cc.StaticCallee(); g != nil {
+				name = g.Name()
+			}
+			return name == "CallMode" && an.IsConst(y, unknown)
+		}
+		return chk(r.X, r.Y) || chk(r.Y, r.X)
+	}
+	n := 0
+	for _, g := range an.WithAnon(fn) {
+		for _, b := range g.Blocks {
+			if len(b.Instrs) == 0 {
+				continue
+			}
+			ret, ok := b.Instrs[len(b.Instrs)-1].(*ssa.Return)
+			if !ok || len(ret.Results) != 2 || !an.IsNil(an.RetVal(ret, 1)) {
+				continue
+			}
+			v := an.RetVal(ret, 0)
+			if mi, ok := v.(*ssa.MakeInterface); ok {
+				v = mi.X
+			}
+			// where the returned set was obtained (through phis: any of the candidates)
+			var origins []ssa.Instruction
+			seenV := map[ssa.Value]bool{}
+			var find func(v ssa.Value)
+			find = func(v ssa.Value) {
+				if seenV[v] {
+					return
+				}
+				seenV[v] = true
+				switch x := v.(type) {
+				case *ssa.Phi:
+					for _, e := range x.Edges {
+						find(e)
+					}
+				case *ssa.Extract:
+					if ta, ok := x.Tuple.(*ssa.TypeAssert); ok && x.Index == 0 && isSetPtr(ta.AssertedType) {
+						origins = append(origins, ta)
+					}
+				case *ssa.TypeAssert:
+					if isSetPtr(x.AssertedType) {
+						origins = append(origins, x)
+					}
+				case *ssa.Alloc:
+					if isSetPtr(x.Type()) {
+						origins = append(origins, x)
+					}
+				}
+			}
+			find(v)
+			if len(origins) == 0 {
+				continue
+			}
+			if ok, _ := an.GuardedBy(ret, unknownMode); ok {
+				continue
+			}
+			n++
+			var w *an.Witness
+			for _, origin := range origins {
+				if w = (an.Query{Fn: g, After: origin, Target: func(x ssa.Instruction) bool { return x == ssa.Instruction(ret) }, Barrier: isKL}).Find(); w != nil {
+					break
+				}
+			}
+			c.Check("T8", fmt.Sprintf("surviving-set-chosen-by-known-length(%s)@%s", t8name(v), an.FnName(g)), ret.Pos(), w == nil,
+				"a merged source set is handed back on a path that never asked KnownLength() after obtaining it: the survivor can be the set without a statically known length, the known length of the other is forgotten, and split collections of provably different lengths are accepted"+c.WitnessString(w))
+		}
+	}
+	c.Floor("T8", "returns of a merged set outside the unknown-mode branches", n, 3)
+}
+
+func t8name(v ssa.Value) string {
+	if _, ok := v.(*ssa.Phi); ok {
+		return "one-of-several"
+	}
+	return an.Path(v)
+}
